@@ -68,6 +68,7 @@ impl Domain for ConcDomain {
                     nontrivial: false,
                     classes: vec![],
                     excluded: vec![],
+            counters: vec![],
                 }
             }
         };
@@ -86,6 +87,7 @@ impl Domain for ConcDomain {
             nontrivial: (self.nontrivial)(&run, &case),
             classes: conc_classes(&run, &case),
             excluded: case.excluded.clone(),
+            counters: vec![],
         }
     }
 }
